@@ -175,6 +175,7 @@ type daemonEngine struct {
 	migrating bool
 	lastFault time.Time // end of the last fault injected outside the script (by the resharing driver)
 	servedMax map[int]uint64
+	rwSite    string
 }
 
 // ---------------------------------------------------------------- endpoint
